@@ -265,4 +265,25 @@ example : helloComplete [⟨0, handshake ⟨3, List.replicate 32 0, [], [0x13, 1
     specResult ⟨3, List.replicate 32 0, [], [0x13, 1], [0], some [.other 43 [2, 3, 4]]⟩ = .error .notFound := by
   decide
 
+/-! ## One UDP flow through `handlePkt`: nothing lost, nothing reordered -/
+
+/-- **Datagram fidelity and order, every outcome.** For every sequence of datagrams of one flow —
+QUIC Initials whose ClientHello is complete, incomplete, absent or undecryptable, other packets in
+between — and whatever the sniffer answers on the way (name, not found, not applicable, need
+more), the datagrams written to the outbound, in the order written, followed by those the sniffer
+session still holds, are exactly the datagrams received, in ingress order.  Nothing is altered,
+duplicated, dropped or overtaken; what is held back is always a suffix of what has arrived. -/
+theorem udp_flow_in_order (oracle : List Sealed) (ds : List Bytes) :
+    (Flow.run oracle {} ds).1.flatten ++ (Flow.run oracle {} ds).2.withheld = ds := by
+  have := flow_in_order_aux oracle ds {} ⟨rfl, fun _ => rfl⟩
+  simpa [Flow.withheld] using this
+
+/-- the regression of fix a210030: an Initial that is held back, then a datagram that is not a QUIC
+Initial: the held datagram is released ahead of it -/
+def heldFlow : Flow := { pkt := { buf := [0xc0, 1, 2], data := [[], [0xc0, 1, 2]], needMore := true } }
+
+example : heldFlow.Inv ∧ (heldFlow.step [] [0x40, 9, 9, 9, 9, 9, 9]).2 = [[0xc0, 1, 2], [0x40, 9, 9, 9, 9, 9, 9]] ∧
+    (heldFlow.step [] [0x40, 9, 9, 9, 9, 9, 9]).1.withheld = [] := by
+  refine ⟨⟨rfl, fun h => by cases h⟩, by decide, by decide⟩
+
 end DaeVerif.C06.Props
